@@ -123,7 +123,7 @@ CLAIMS['C08'] = dict(
           'The trim walks are shown to stay inside [0,size] (widening with verified cursor bounds) and to call substr inside the string. '
           'The 12 before_/after_ overloads are interpreted with the search result as a symbol: on a match the slice is left(i) / '
           'substr(i + length of the separator searched for), without a match the whole / empty string as the property tabulates; every read '
-          'of the string\'s storage on every explored path of these members lies inside it (a violation comes with a witness). A trim that tests units against a folded form of the character set (bit set, table) instead of find_cs: the place it reads, as a function of the unit (bit provenance of offset and shift), must differ for any two unit values (witness: two units selecting the same place).'),
+          'of the string\'s storage on every explored path of these members lies inside it (a violation comes with a witness). A trim that tests units against a folded form of the character set (bit set, table) instead of find_cs: the place it reads, as a function of the unit (bit provenance of offset and shift), must differ for any two unit values (witness: two units selecting the same place). Any further trim overload reaches its charset core or, if it walks with a predicate of the unit alone, accepts exactly the bytes of ST_WHITESPACE (finite case analysis).'),
     note=('relative to: clang-14 lowering, STIR, C05 (storage of size()+1 units terminated at size()), C07 for the meaning of the index '
           'returned by find/find_last; which bytes a trim removes (membership in the set) is delegated to find_cs'),
     technique='static analysis: abstract interpretation with free scalars at full range (linear terms + intervals), oracle clamp formula, witness search')
@@ -198,7 +198,7 @@ CLAIMS['C09'] = dict(
           'the end; the sizing scan of replace adds |to|-|from| (mod 2^64) per occurrence and the copying scan copies the gap then `to` '
           'and advances the output by gap+|to|, both scans issuing the same search; tokenize emits only non-empty ranges of the string, '
           'tests delimiters with find_cs on the whole set and never reads outside [0,size]; a result of replace produced without searching is '
-          'justified only by an empty text / pattern or a byte-for-byte identical replacement; a searching loop of a helper that replace calls (a counting pass) must resume behind the whole match like the copying scan; a tokenize that tests units against a folded delimiter set must select a different place for every unit value. The overloads are shown to forward to the cores. '
+          'justified only by an empty text / pattern or a byte-for-byte identical replacement; a searching loop of a helper that replace calls (a counting pass) must resume behind the whole match like the copying scan; a tokenize that tests units against a folded delimiter set must select a different place for every unit value; every token ends at the end of the string or at a unit found in the delimiter set on that path (walks exact for two rounds; witness: an embedded NUL); for one-unit operands replace and split are interpreted exactly and a returning path without a search on which the case mode decided nothing is a finding when text "X" / pattern "x" can take it. The overloads are shown to forward to the cores. '
           'Decided: these step facts. Not decided: that the search returns the FIRST match (C07), join (a plain concatenation loop), and the '
           'induction from steps to whole-string equations, which is stated in DESIGN.md but not mechanised.'),
     note=('relative to: clang-14 lowering, STIR, C05, C07; a codec that tests delimiters by other means than find_cs is reported undecided'),
@@ -245,7 +245,7 @@ CLAIMS['C17'] = dict(
           'that runs count times (or forwards to string_stream::append_char); every format / format_latin_1 / printf / writef / _stfmt '
           'instantiation builds one writer over its format string and runs apply_format, the string forms ending in to_string(true, mode) '
           'resp. to_string(false, assume_valid); operator<< inserts basic_string(b.data(), b.size()) of to_buffer(b) and operator>> sets '
-          'the string from the extracted token (c_str(), size()), a token object that is empty when the extraction starts on every path (a basic_string that outlives the call and is not cleared keeps the previous token when the stream yields none). Not decided: that libc / iostream deliver what they are handed, what the '
+          'the string from the extracted token (c_str(), size()), a token object that is empty when the extraction starts on every path (a basic_string that outlives the call and is not cleared keeps the previous token when the stream yields none); the string writer, after constructor + append_char / append of a byte >= 0x80, answers to_string(utf8, validation) only through string_stream::to_string with those arguments; an append_char that writes a run in one piece from a std::basic_string block hands over units set to ch in this call. Not decided: that libc / iostream deliver what they are handed, what the '
           'conversions and the driver produce (C01-C03, C10, C11); for a writer that stages bytes in a buffer of its own the call-order clause is decided (no byte of a later call reaches the sink while staged bytes may be pending: witness with one staged byte), that it flushes everything in the end is reported undecided; a writer that transcodes its text in pieces is a finding when a piece can end inside a multi-byte character (witness: a well-formed text with that character across the cut, on a first-iteration path), otherwise undecided.'),
     note=('relative to: clang-14 lowering, STIR, libc / libstdc++ output primitives trusted, C10 (dispatch only through append / append_char), '
           'C16; writers instantiated in gen/driver.cpp; level "other": necessary hand-over facts plus a stated (not mechanised) induction over the call sequence'),
